@@ -138,7 +138,7 @@ def info(tier):
         % (LEN[tier][0], LEN[tier][1], len(MODELS)),
         "required_cells": [f"model:{m}" for m in MODELS if m not in OPTIONAL_MODELS] + ["obs:evaluate", "obs:compiled-value", "obs:compiled-gradient", "obs:compiled-jacobian",
                                                             "obs:compiled-hessian", "obs:solve-vs-fresh-parameters", "obs:solve-vs-constants",
-                                                            "after-set", "solve:warm-start-at-previous-solution", "set:small-relative-change", "set:tiny-value"],
+                                                            "after-set", "solve:warm-start-at-previous-solution", "set:small-relative-change", "set:tiny-value", "vector-parameter:integer-typed-initial-data", "set:vector-as-integers"],
         "assumptions": [
             "twin process: same interpreter / NumPy / SciPy; the solvers are deterministic, so same-path comparisons are tight (1e-7 rel on objective)",
             "literal-Constant twin may legitimately use the LP path: compared on objective only (1e-4), status differences non-comparable unless the same-path twin disagrees too",
@@ -160,6 +160,11 @@ def run_history(rec, rng, twin, mname, length):
             d["vals"] = [rng.choice([0.0, 0.0, 1.0, -2.0, 0.5]) for _ in d["vals"]]
             if mname == "vector-param":
                 d["vals"][2] = rng.choice([-1.0, 0.0, 0.5])
+            if rng.random() < 0.5:
+                # integer-valued initial data handed over as ints (list / integer array): later updates are fractional
+                d["vals"] = [float(round(v)) for v in d["vals"]]
+                d["as"] = rng.choice(["int-list", "int-array", "float32-array"])
+                rec.cmp(1, "vector-parameter:integer-typed-initial-data")
         elif d["k"] == "mpar":
             d["vals"] = [list(r) for r in rng.choice([SPD[1], SPD[4], SPD[0]])]
     D = R.Decls(decls)
@@ -222,7 +227,12 @@ def run_history(rec, rng, twin, mname, length):
                 v = [rng.choice([-2.0, -1.0, 0.5, 1.0, 2.0]) for _ in cur_vp[nm]]
                 if mname == "vector-param":
                     v[2] = rng.choice([-1.0, 0.0, 0.5])
-                b.env[nm].set(v)
+                rr = rng.random()
+                if rr < 0.3 and all(float(t).is_integer() for t in v):
+                    b.env[nm].set([int(t) for t in v] if rr < 0.15 else np.array([int(t) for t in v]))
+                    rec.cmp(1, "set:vector-as-integers")
+                else:
+                    b.env[nm].set(v)
                 cur_vp[nm] = v
             else:
                 v = rng.choice(SPD)
